@@ -1,4 +1,5 @@
 import BeyondVerif.Model.Tle
+import BeyondVerif.Model.TleOrb
 
 /-!
 Kernel-checked facts (`decide`) about concrete inputs on which an earlier version of beyond/io/tle.py falsified a
@@ -49,5 +50,35 @@ theorem ecc_one_refused :
 theorem missing_line_is_parse_error :
     (match parseTle [l1] with | .error (.lineCount 1) => true | _ => false) = true ∧
     (match parseTle [] with | .error (.lineCount 0) => true | _ => false) = true := by decide
+
+/-! ### open finding C12-blank-drag-field-indexerror (counter-witness: the code falsifies "a multi-TLE text yields exactly its valid entries") -/
+
+/-- line 1 of the reference TLE with a blank B* field; the checksum is still 7 -/
+def l1BlankBstar : Str := "1 25544U 98067A   08264.51782528 -.00002182  00000-0          0  2927".toList
+
+/-- `Tle(text)` raises `IndexError` (`_float` indexes `text[0]` of the empty field) although length, line numbers and checksums are
+right; `from_string` catches `ValueError` only, so the generator ends there and the valid entry `m1, m2` that follows is lost -/
+theorem blank_drag_field_ends_generator :
+    (checkValidity [l1BlankBstar, l2]).toOption.isSome = true ∧
+    (match parseTle [l1BlankBstar, l2] with | .error .indexError => true | _ => false) = true ∧
+    (fromString [l1BlankBstar, l2, m1, m2]).out = [] ∧ (fromString [l1BlankBstar, l2, m1, m2]).abort = some .indexError ∧
+    ((fromString [m1, m2]).out.map (·.norad)) = [14] := by decide
+
+/-! ### catalogue numbers outside the quantifier (`Model/TleOrb.lean`; `Props/C12Orb.lean` proves the general statements) -/
+
+def refRec : Rec := { almostParabolic with ecc7 := 6703 }
+
+/-- an alpha-5 catalogue number is refused (`int("A0001")` fails although the line is well formed), a six-digit one makes
+the line 70 characters long, catalogue number 0 is written `00000` -/
+theorem alpha5_refused :
+    (match fromOrbitN "A0001".toList refRec with | .error .valueError => true | _ => false) = true ∧
+    (match fromOrbitN (intStr 100000) refRec with | .error (.size 1 70) => true | _ => false) = true ∧
+    (fromOrbitN (intStr 0) refRec).toOption.map (fun p => (p.norad, (p.text.head?.getD []).take 8)) = some (0, "1 00000U".toList) := by decide
+
+/-- a curiosity of `"{:0>5}"` and `int()`: the sign of a four-digit negative number fills the fifth column and is read back;
+shorter negative numbers get zeros in front of the sign and are refused -/
+theorem negative_norad :
+    (fromOrbitN (intStr (-1234)) refRec).toOption.map (·.norad) = some (-1234) ∧
+    (match fromOrbitN (intStr (-5)) refRec with | .error .valueError => true | _ => false) = true := by decide
 
 end BeyondVerif.C12W
